@@ -1,6 +1,32 @@
 import Driver.BusUtil
+import GbVerif.Model.Fetch
 namespace Driver
 open GbVerif
+
+/-- address lists of `fetch_digests` / `fetch_echo_digest` in harness/src/s_c10.rs -/
+def fetchAddrs : Array Nat := Id.run do
+  let mut v : Array Nat := #[]
+  let mut a := 0
+  while a < 0x8000 do
+    v := v.push a; a := a + 7
+  a := 0xc000
+  while a < 0xe000 do
+    v := v.push a; a := a + 3
+  for x in [0xff80:0xffff] do v := v.push x
+  return v ++ #[0x3fff, 0x4000, 0x7fff, 0xcfff, 0xd000, 0xdfff]
+
+def fetchEchoAddrs : Array Nat := Id.run do
+  let mut v : Array Nat := #[]
+  let mut a := 0xe000
+  while a < 0xfea0 do
+    v := v.push a; a := a + 5
+  return v ++ #[0xefff, 0xf000, 0xfdff, 0xfe00, 0xfe9f]
+
+def fetchDigest (s : Bus.State) (addrs : Array Nat) : UInt64 := Id.run do
+  let mut h := fnv0
+  for a in addrs do
+    h := fnv h (match Bus.fetchByte s a with | .ok v => v | .error _ => 0x1ff)
+  return h
 
 /-- C10: per-region digests of the whole 64 KiB read image after a write history -/
 def checkC10 (l : Line) : Verdict := Id.run do
@@ -45,6 +71,10 @@ def checkC10 (l : Line) : Verdict := Id.run do
     k := k + 1
   for low in [0:128] do
     if busRd s (0xff00 + low) != io[low]! then return .modelDiff s!"io 0xff{low} model={busRd s (0xff00 + low)} impl={io[low]!}"
+  if toString (fetchDigest s fetchAddrs) != l.outS "fd" then
+    return .modelDiff s!"fetch view over ROM/WRAM/HRAM: model digest {fetchDigest s fetchAddrs} impl={l.outS "fd"}"
+  if toString (fetchDigest s fetchEchoAddrs) != l.outS "fe" then
+    return .modelDiff s!"fetch view over the echo aliases: model digest {fetchDigest s fetchEchoAddrs} impl={l.outS "fe"}"
   return .ok (hist.any fun (a, _) => a ≥ 0x2000)
 
 end Driver
